@@ -21,7 +21,8 @@ meta-model or with a textX error (`TextXSyntaxError`, `TextXSemanticError`,
 `TextXRegistrationError`, `TextXError`) — never with another exception: no
 `KeyError` from `_tx_attrs[...]` / `metamodel[...]`, no `AttributeError` from
 `_attr_name` / `_tx_class` / `nodes`, no `TypeError` from a valueless `ws`, no
-`re.error` / `UnicodeDecodeError`, no `RecursionError` from rule aliases. -/
+`re.error` / `OverflowError` / … of the regex engine, no `UnicodeDecodeError`, no
+`RecursionError` from rule aliases. -/
 theorem C23_total (env : Env) (g : Grammar) (h : Stm.imp ∉ g.stms) :
     ∀ e, compile env g = .error e → e.isTx = true := by
   intro e he
@@ -138,6 +139,58 @@ theorem C23_unfixed_alias_false (env : Env) :
       rw [hg, ok_bind]
       exact ih
 
+/-- a regex match the regex engine refuses is a `TextXSyntaxError` whatever
+exception class the engine uses for the refusal (`re.error`, `OverflowError` for a
+repetition count beyond its limit, `RecursionError`, `ValueError`, …): the handler
+of `visit_re_match` is `except Exception` -/
+theorem C23_regex_any_exception (e : PyExc) : visitLit (.re (some e)) = .error .syntax := rfl
+
+/-- with the handler narrowed to `except re.error` (seeded change C23-2) the
+`OverflowError` of `/a{4294967296}/` leaves the visitor -/
+theorem C23_narrow_handler_false :
+    visitReNarrow (some .overflowError) = .error (.py .overflowError) := rfl
+
+/-- remembering only the reference the walk started from (seeded change C23-1)
+is not enough: on `A: B; B: C; C: B;` the walk from `A` never meets `A` again and
+exhausts every stack -/
+theorem C23_start_only_alias_false (env : Env) :
+    ∀ f, resolveCrossStartOnly env rhoAlias f none "A" = .error (.py .recursionError) := by
+  have hcA : contains env rhoAlias "A" = .ok true := rfl
+  have hcB : contains env rhoAlias "B" = .ok true := rfl
+  have hcC : contains env rhoAlias "C" = .ok true := rfl
+  have hgA : getitem env rhoAlias "A" = .ok (.loc { name := "A", attrs := [], peg := .cross "B" false }) := rfl
+  have hgB : getitem env rhoAlias "B" = .ok (.loc { name := "B", attrs := [], peg := .cross "C" false }) := rfl
+  have hgC : getitem env rhoAlias "C" = .ok (.loc { name := "C", attrs := [], peg := .cross "B" false }) := rfl
+  have loop : ∀ f, resolveCrossStartOnly env rhoAlias f (some "A") "B" = .error (.py .recursionError)
+      ∧ resolveCrossStartOnly env rhoAlias f (some "A") "C" = .error (.py .recursionError) := by
+    intro f
+    induction f with
+    | zero => exact ⟨rfl, rfl⟩
+    | succ f ih =>
+        constructor
+        · unfold resolveCrossStartOnly
+          rw [hcB, ok_bind]
+          simp only [Bool.not_true, Bool.false_eq_true, if_false]
+          rw [hgB, ok_bind]
+          exact ih.2
+        · unfold resolveCrossStartOnly
+          rw [hcC, ok_bind]
+          simp only [Bool.not_true, Bool.false_eq_true, if_false]
+          rw [hgC, ok_bind]
+          exact ih.1
+  intro f
+  cases f with
+  | zero => rfl
+  | succ f =>
+      unfold resolveCrossStartOnly
+      rw [hcA, ok_bind]
+      simp only [Bool.not_true, Bool.false_eq_true, if_false]
+      rw [hgA, ok_bind]
+      exact (loop f).1
+
+/-- the repaired code reports the same grammar: the chain `[A, B, C]` meets `B` again -/
+example (env : Env) : resolveCross env rhoAlias (rhoAlias.ns.length + 1) [] "A" = .error .semantic := rfl
+
 /-! ## non-vacuity: the model distinguishes the outcome classes on concrete grammars -/
 
 def noLangs : Env := { langs := fun _ => none }
@@ -161,13 +214,28 @@ example : compile noLangs { stms := [], first := ⟨"A", none, seq1 (ref "A")⟩
 example : compile noLangs { stms := [], first := ⟨"A", none, seq1 (ref "B")⟩, rest := [⟨"B", none, seq1 (ref "A")⟩] }
     = .error .semantic := by rfl
 
+/-- `Model: x=A; A: B; B: C; C: B;` and `A: B; B: C; C: D; D: C;` (a tail of alias
+rules leading into a cycle that does not contain the rule the walk starts from) are
+semantic errors -/
+example : compile noLangs
+    { stms := [], first := ⟨"Model", none, seq1 (asgn "x" .eq (.ref "A"))⟩,
+      rest := [⟨"A", none, seq1 (ref "B")⟩, ⟨"B", none, seq1 (ref "C")⟩, ⟨"C", none, seq1 (ref "B")⟩] }
+    = .error .semantic := by rfl
+example : compile noLangs
+    { stms := [], first := ⟨"A", none, seq1 (ref "B")⟩,
+      rest := [⟨"B", none, seq1 (ref "C")⟩, ⟨"C", none, seq1 (ref "D")⟩, ⟨"D", none, seq1 (ref "C")⟩] }
+    = .error .semantic := by rfl
+
 /-- `A: B; B: C; C: 'x';` (an alias chain that ends) loads -/
 example : compile noLangs
     { stms := [], first := ⟨"A", none, seq1 (ref "B")⟩,
       rest := [⟨"B", none, seq1 (ref "C")⟩, ⟨"C", none, seq1 (lit "x")⟩] } = .ok () := by rfl
 
 /-- `A: /(/;` is a syntax error; `A[ws]: 'a';` a TextXError; `A[foo]: 'a';` a syntax error -/
-example : compile noLangs { stms := [], first := ⟨"A", none, seq1 (.mk (.lit none (.re false)) none false)⟩, rest := [] }
+example : compile noLangs { stms := [], first := ⟨"A", none, seq1 (.mk (.lit none (.re (some .reError))) none false)⟩, rest := [] }
+    = .error .syntax := by rfl
+/-- `A: /a{4294967296}/;` (the regex engine answers with `OverflowError`) is a syntax error too -/
+example : compile noLangs { stms := [], first := ⟨"A", none, seq1 (.mk (.lit none (.re (some .overflowError))) none false)⟩, rest := [] }
     = .error .syntax := by rfl
 example : compile noLangs { stms := [], first := ⟨"A", some [("ws", none)], seq1 (lit "a")⟩, rest := [] }
     = .error .txerror := by rfl
